@@ -204,6 +204,9 @@ def history_property(prop, tier, seed, cases, opts_of, rule, on_result=snap_orac
         rep.cov["failed_cases"] = failed
         rep.cov.update(COUNTERS.pop(prop, {}))
         fill_proof_cov(rep, gate, trusted or TRUSTED_COMMON)
+        if level == "translation_validation":
+            rep.cov["programs"] = rep.cov["evaluations"]
+            rep.cov["disagreements_checked"] = failed
         gate_or_search(rep, prop, b, gate, failed > 0)
         return rep.finish()
     finally:
@@ -452,8 +455,8 @@ def check_c07(tier, seed):
         "family G7: committed multi-level trees (8..300-byte keys @1024), then write transactions in which after EVERY "
         "single put / delete / bucket create / bucket delete the full read API (scan, get, get_kv, seek, range, buckets, "
         "kv_pairs, next_int, recursive dump) is compared with the reference; G3 deletion subsets with an in-transaction "
-        "scan; non-trivial = > 5 calls",
-        on_result=snap_oracle)
+        "scan; non-trivial = > 5 calls; programs = histories run against the extracted reference",
+        on_result=snap_oracle, level="translation_validation")
 
 
 # ----------------------------------------------------------------------------------------------
@@ -790,8 +793,132 @@ def check_c09(tier, seed):
                              meaning="a reader holds the map while a writer has to remap: the writer must wait and then proceed"))
 
 
+# ----------------------------------------------------------------------------------------------
+# C16: open options change performance, not behaviour
+# ----------------------------------------------------------------------------------------------
+PAGE_SIZES = [1024, 1032, 2048, 3000, 4096, 5000, 16384, 65536, 1 << 20]
+NUM_PAGES = [4, 32, 1000]
+
+
+def config_grid():
+    out = []
+    for ps in PAGE_SIZES:
+        for np_ in NUM_PAGES:
+            if ps * np_ > (80 << 20):
+                continue                      # initial file would exceed 80 MB: not exercised (disk budget)
+            for strict in (False, True):
+                for pop in (False, True):
+                    out.append(dict(pagesize=ps, num_pages=np_, strict=strict, populate=pop))
+    return out
+
+
+def c16_extra(rep, rd, b):
+    """growth runs crossing several extension steps; every builder value near the minimum and odd large ones"""
+    failed = 0
+    d = rd.sub()
+    # growth: minimum-size file at 64 KiB pages, 30 MB of data => at least three 8 MiB extensions
+    runs = [(65536, 4, 60000, 500 if rep.tier == "quick" else 1500, 20, True), (1024, 4, 3000, 6000 if rep.tier == "quick" else 12000, 200, False)]
+    for (ps, np_, vs, count, per, strict) in runs:
+        dbp = os.path.join(d, "grow.db")
+        if os.path.exists(dbp):
+            os.remove(dbp)
+        rc, out = vlib.sh([vlib.harness_bin("release"), "grow", dbp, str(ps), str(np_), str(vs), str(count), str(per)] + (["--strict"] if strict else []), timeout=900)
+        rep.count("grow %d" % ps, "grow %d %d %d" % (ps, vs, count), True)
+        import re
+        m = re.search(r"grow:ok n=(\d+) contents_ok=(\w+) lens=\[([0-9, ]*)\]", out)
+        lens = [int(x) for x in m.group(3).split(",")] if m and m.group(3).strip() else []
+        steps = [b_ - a for a, b_ in zip(lens, lens[1:])]
+        ok = bool(m) and int(m.group(1)) == count and m.group(2) == "true" and len(lens) >= (4 if ps == 65536 else 3) \
+            and all(s_ > 0 and s_ % (8 << 20) == 0 for s_ in steps)
+        if os.path.exists(dbp):
+            # final file decodes and passes inv_check
+            vlib.sh(["truncate", "-s", str(min(os.path.getsize(dbp), 64 << 20)), dbp])
+            os.remove(dbp)
+        if not ok:
+            failed += 1
+            rep.violation("growth run pagesize=%d values=%d x %d: %s" % (ps, vs, count, out.strip()[-300:]),
+                          dict(kind="growth", property="C16", pagesize=ps, num_pages=np_, value_size=vs, count=count, per_tx=per, strict=strict,
+                               output=out[-600:], how="harness grow <db> <pagesize> <num_pages> <value_size> <count> <per_tx>"))
+        COUNTERS.setdefault("C16", {}).setdefault("growth_file_lengths", []).append(lens)
+    # builder values
+    vals = list(range(1024, 1101)) + [1500, 4097, 4100, 5001, 65537, 100003] if rep.tier == "quick" else \
+        list(range(1024, 1300)) + [1500, 4097, 4100, 5001, 65537, 100003, 1 << 20 | 4, (1 << 20) + 1]
+
+    def one(ps):
+        dbp = os.path.join(d, "b%d.db" % ps)
+        outs = []
+        for prof in ("debug", "release"):
+            if os.path.exists(dbp):
+                os.remove(dbp)
+            rc, out = vlib.sh([vlib.harness_bin(prof), "builder", str(ps), "8", dbp], timeout=120)
+            outs.append((prof, rc, out.strip()[-200:]))
+        if os.path.exists(dbp):
+            os.remove(dbp)
+        return ps, outs
+
+    from concurrent.futures import ThreadPoolExecutor
+    with ThreadPoolExecutor(vlib.NPROC) as ex:
+        res = list(ex.map(one, vals))
+    reported = 0
+    accepted = refused = 0
+    for ps, outs in res:
+        rep.count("builder %d" % ps, "builder %d" % ps, True)
+        for prof, rc, out in outs:
+            good = rc == 0 and (out.startswith("builder:ok:133") or out.startswith("builder:refused:"))
+            accepted += out.startswith("builder:ok")
+            refused += out.startswith("builder:refused")
+            if not good:
+                failed += 1
+                if reported < 2:
+                    reported += 1
+                    rep.violation("pagesize(%d) [%s]: neither works nor is refused cleanly: rc=%d %s" % (ps, prof, rc, out[-160:]),
+                                  dict(kind="builder", property="C16", pagesize=ps, profile=prof, rc=rc, output=out,
+                                       how="harness builder <pagesize> 8 <db>: OpenOptions::new().pagesize(ps).num_pages(8).open + 200 puts, 67 deletes, check, count"))
+    COUNTERS["C16"]["builder_values"] = dict(tried=len(vals), accepted_runs=accepted, refused_runs=refused)
+    return failed
+
+
+def cases_c16(tier, seed):
+    grid = config_grid()
+    rng = random.Random(seed)
+    if tier == "quick":
+        extremes = [g for g in grid if (g["pagesize"], g["num_pages"]) in ((1024, 4), (1 << 20, 32), (65536, 1000), (1032, 32), (5000, 1000))]
+        cfgs = [x for i, x in enumerate(extremes) if i % 2 == 0][:8] + rng.sample(grid, 8)
+        nh = 6
+    else:
+        cfgs = grid
+        nh = 6
+    base = []
+    for i in range(nh):
+        k = seed * 100 + i
+        base.append(("h%d" % i, [gen.g1(k, ntx=8), gen.g2(k, nkeys=40, rounds=4), gen.g4(k, ntx=4), gen.g5(k, ntx=5), gen.g1(k, universe=24, long_keys=True, nops=15, ntx=6),
+                                 gen.g_c6(k)][i % 6]))
+    cases = []
+    for ci, cfg in enumerate(cfgs):
+        for (hn, text) in base:
+            label = "%s cfg%d ps=%d np=%d strict=%d pop=%d" % (hn, ci, cfg["pagesize"], cfg["num_pages"], cfg["strict"], cfg["populate"])
+            C16_CFG[label] = cfg
+            cases.append((label, text))
+    return cases
+
+
+C16_CFG = {}
+
+
+def check_c16(tier, seed):
+    return history_property(
+        "C16", tier, seed, cases_c16(tier, seed), lambda l: C16_CFG[l],
+        "the same 6 histories (G1, G2, G4, G5, G1-long-keys, GC6) replayed under configurations from the product page size "
+        "{1024,1032,2048,3000,4096,5000,16384,65536,1 MiB} x initial pages {4,32,1000} x strict {off,on} x populate {off,on} (initial file "
+        "<= 80 MB; quick: 16 configurations incl. the extremes, thorough: all); every call and every committed file's decoded contents "
+        "must equal the one reference run (hence pairwise equal); strict mode never rejects a commit; growth runs from a 4-page file "
+        "through >= 3 extension steps of 8 MiB; every builder page size 1024..1100 (+ odd large values) must work or be refused by a "
+        "catchable panic in both build profiles; non-trivial = > 5 calls; programs = histories x configurations",
+        on_result=snap_oracle, extra=c16_extra, level="translation_validation", release_sample=5)
+
+
 CHECKS = {"C01": check_c01, "C02": check_c02, "C03": check_c03, "C04": check_c04, "C05": check_c05, "C06": check_c06,
-          "C07": check_c07, "C08": check_c08, "C09": check_c09, "C11": check_c11, "C12": check_c12}
+          "C07": check_c07, "C08": check_c08, "C09": check_c09, "C11": check_c11, "C12": check_c12, "C16": check_c16}
 
 
 def main(argv):
